@@ -501,6 +501,26 @@ def denoteTemplate (t : Str) (r v : Val) : Option Bool :=
   | some tm => tm.eval r v
   | none => none
 
+/-- the template shape the relation of each op calls for (`{0}` = attribute, `{1}` = literal) -/
+def expectedTmpl : Op → Tmpl
+  | .eq => .bin .eq .h0 .h1 | .ne => .bin .ne .h0 .h1
+  | .gt => .bin .gt .h0 .h1 | .ge => .bin .ge .h0 .h1
+  | .lt => .bin .lt .h0 .h1 | .le => .bin .le .h0 .h1
+  | .in_ => .meth false .h1 "contains" .h0
+  | .ni => .meth true .h1 "contains" .h0
+  | .contains => .meth false .h0 "contains" .h1
+  | .glob => .meth false .h0 "glob" .h1
+  | .intersect => .meth false .h0 "intersect" .h1
+  | .difference => .meth false .h0 "difference" .h1
+  | .present => .fn "present" .h0
+  | .absent => .fn "absent" .h0
+
+/-- decidable check of one `atomic_op_map` entry: an op of the property parses to its expected shape -/
+def entryOk (p : String × String) : Bool :=
+  match Op.ofName p.1 with
+  | none => true
+  | some o => parseTemplate p.2.toList == some (expectedTmpl o)
+
 /-! ## `value_type` transforms (`type_value_map`) -/
 
 /-- pieces of the two texts a `type_value_map` lambda returns -/
@@ -535,6 +555,74 @@ def xfOf (e : TVExpr) : Option Xf :=
 def TVExpr.render (e : TVExpr) (sentinel value now ageDur : Str) : Str :=
   e.flatMap fun
     | .text s => s.toList | .sentinel => sentinel | .value => value | .now => now | .ageDur => ageDur
+
+/-- the functions the transforms call, identified by name on both sides: CEL `size`, `unique_size`,
+`int`, `normalize`, `timestamp` (c7nlib / celpy) are taken to be Custodian's `len`, `len(set())`,
+`int`, `.strip().lower()`, `parse_date` — that identification is checked by correspondence, not here. -/
+structure Prims where
+  size : Val → Option Val
+  uniqueSize : Val → Option Val
+  toInt : Val → Option Val
+  normalize : Val → Option Val
+  /-- seconds since the epoch -/
+  timestamp : Val → Option Int
+
+/-- the length of time `duration(age_to_duration(d))` denotes, through the text actually emitted -/
+def ageSeconds : Val → Option Nat
+  | .atom (.int d) =>
+    if d < 0 then none
+    else match evalLiteral (ageToDuration d.toNat) with
+      | some text => (match durOf text with | .ok s => some s | _ => none)
+      | none => none
+  | _ => none
+
+def Xf.apply (P : Prims) (now : Int) (x : Xf) (sentinel value : Val) : Option Val :=
+  match x with
+  | .sentinel => some sentinel
+  | .value => some value
+  | .size => P.size value
+  | .uniqueSize => P.uniqueSize value
+  | .int => P.toInt value
+  | .normalize => P.normalize value
+  | .nowMinusAge => (ageSeconds sentinel).map (fun s => .atom (.int (now - s)))
+  | .nowPlusAge => (ageSeconds sentinel).map (fun s => .atom (.int (now + s)))
+  | .timestampValue => (P.timestamp value).map (fun t => .atom (.int t))
+
+/-- what a `type_value_map` entry `(new cel_value, new key)` makes of the two holes:
+`{0}` ← new key, `{1}` ← new cel_value (`atomic_op_map[op].format(key, cel_value)`) -/
+def denoteOperands (P : Prims) (now : Int) (e : TVExpr × TVExpr) (r v : Val) : Option (Val × Val) :=
+  match xfOf e.2, xfOf e.1 with
+  | some x0, some x1 =>
+    (match x0.apply P now v r, x1.apply P now v r with
+     | some a0, some a1 => some (a0, a1)
+     | _, _ => none)
+  | _, _ => none
+
+namespace Spec
+/-- Custodian's `process_value_type`: the operands `(r', v')` of `op(r', v')` for resource value `r`
+and policy value `v` (ages/expirations in whole days, up to the range a CEL duration can hold) -/
+def operands (P : Prims) (now : Int) (vt : String) (r v : Val) : Option (Val × Val) :=
+  let days : Option Nat := match v with
+    | .atom (.int d) => if d < 0 then none else if d.toNat * 86400 ≤ durMaxSeconds then some d.toNat else none
+    | _ => none
+  if vt = "size" then (P.size r).map (·, v)
+  else if vt = "unique_size" then (P.uniqueSize r).map (·, v)
+  else if vt = "integer" then (P.toInt r).map (·, v)
+  else if vt = "normalize" then (P.normalize r).map (·, v)
+  else if vt = "swap" then some (v, r)
+  else if vt = "age" then
+    match days, P.timestamp r with
+    | some d, some t => some (.atom (.int (now - (d * 86400 : Nat))), .atom (.int t))
+    | _, _ => none
+  else if vt = "expiration" then
+    match days, P.timestamp r with
+    | some d, some t => some (.atom (.int t), .atom (.int (now + (d * 86400 : Nat))))
+    | _, _ => none
+  else none
+end Spec
+
+/-- the value types of the property -/
+def vtNames : List String := ["size", "integer", "normalize", "swap", "unique_size", "age", "expiration"]
 
 /-! ## `value_to_cel` -/
 
